@@ -162,6 +162,12 @@ def run_unit(unit, rng, ctx):
                 n_pairs += a
                 n_long += b
                 ctx.count('via_Jumps.collective')
+                # history: the same Jumps object asked again with another cut-off, then with the first one
+                cut_b = pick_cutoff(rng, dsite)
+                coll_b = j.collective(max_dist=cut_b)
+                check_collective(coll_b, rows, sys_, coll_b.max_steps, cut_b, ctx, what + ' [Jumps.collective, second cut-off on the same object]', wit)
+                coll_c = j.collective(max_dist=cutoff)
+                check_collective(coll_c, rows, sys_, coll_c.max_steps, cutoff, ctx, what + ' [Jumps.collective, first cut-off again]', wit)
             w2 = int(rng.integers(1, 51))
             c2 = pick_cutoff(rng, dsite)
             coll2 = Collective(jumps=j, sites=tr.sites, lattice=tr.diff_trajectory.get_lattice(), max_steps=w2, max_dist=c2)
